@@ -98,6 +98,37 @@ def twin_mismatches(d):
     except ImportError:
         pass
     subjects += extra
+    # classes derived from a genuine namedtuple class that shadow one of the traits the heuristic looks at (and the
+    # well-formed subclass): fresh classes every time, the base classified first for half of them (the answer for a
+    # class must not depend on what was classified before)
+    import typing as _typing
+
+    def derived(base_first):
+        B = collections.namedtuple('B', ['x', 'y'])
+        if base_first:
+            optree.is_namedtuple_class(B)
+            optree.tree_flatten(B(1, 2))
+        zoo = {'ok-subclass': {}, 'fields-none': {'_fields': None}, 'fields-list': {'_fields': ['x', 'y']},
+               'fields-nonstr': {'_fields': ('x', 1)}, 'asdict-none': {'_asdict': None}, 'make-none': {'_make': None},
+               'fields-strsub': {'_fields': (type('S', (str,), {})('x'), 'y')}}
+        out = []
+        for label, ns in zoo.items():
+            C = type('C_' + label.replace('-', '_'), (B,), {'__slots__': (), **ns})
+            out.append((f'namedtuple subclass [{label}]{" after its base" if base_first else ""}', C))
+            try:
+                out.append((f'instance of namedtuple subclass [{label}]{" after its base" if base_first else ""}', C(1, 2)))
+            except Exception:  # noqa: BLE001
+                pass
+
+        class TN(_typing.NamedTuple):
+            a: int
+            b: int
+        if base_first:
+            optree.is_namedtuple_class(TN)
+        Mixed = type('Mixed', (TN,), {'_fields': None})
+        out.append((f'typing.NamedTuple subclass [fields-none]{" after its base" if base_first else ""}', Mixed))
+        return out
+    subjects += derived(True) + derived(False)
     names = ['is_namedtuple', 'is_namedtuple_instance', 'is_namedtuple_class', 'is_structseq',
              'is_structseq_instance', 'is_structseq_class', 'namedtuple_fields', 'structseq_fields']
     out = []
@@ -115,6 +146,19 @@ def twin_mismatches(d):
             pub = run(w, x)
             if cxx != py or pub != cxx:
                 out.append(f'{n}({label}): engine {cxx}, Python twin {py}, public {pub}')
+        if not isinstance(x, type) and isinstance(x, tuple):
+            # the traversal classifies with the same heuristic: a tuple-subclass instance is a namedtuple node exactly when
+            # the Python twin says its class is a namedtuple class (struct sequences likewise), else a leaf / plain tuple
+            try:
+                kind = optree.tree_structure(x).kind.name
+            except Exception as e:  # noqa: BLE001
+                kind = 'raised ' + type(e).__name__
+            py_nt = run(optree.is_namedtuple_class.__python_implementation__, type(x))
+            py_ss = run(optree.is_structseq_class.__python_implementation__, type(x))
+            want = 'NAMEDTUPLE' if py_nt == ('ok', True) else 'STRUCTSEQUENCE' if py_ss == ('ok', True) else \
+                ('TUPLE' if type(x) is tuple else 'LEAF')
+            if kind != want:
+                out.append(f'flatten({label}): the engine treats it as {kind}, the Python twins classify its class as {want}')
     return out
 
 
